@@ -142,8 +142,8 @@ DRV_CMD(vol_open, "vol.open") {
   writeFile(path, bytes);
   std::unique_ptr<VolFile> v;
   try { v = std::make_unique<VolFile>(path); }
-  catch (const std::bad_alloc&) { return "open:err:alloc"; }
-  catch (const std::length_error&) { return "open:err:alloc"; }
+  catch (const std::bad_alloc&) { return "err:alloc"; }          // same spelling as an allocator abort in a forked case
+  catch (const std::length_error&) { return "err:alloc"; }
   catch (const std::exception&) { return "open:err"; }
   std::string r = "open:ok"; unsigned k = 0;
   for (const std::string& op : ops) {
@@ -165,7 +165,11 @@ DRV_CMD(vol_open, "vol.open") {
           std::string p = dir + "/x" + std::to_string(k++) + ".bin";
           bool lzh = false;
           try { lzh = v->GetCompressionCode(i) == CompressionType::LZH; } catch (const std::exception&) {}
-          if (lzh) { try { v->ExtractFile(i, p); } catch (const std::exception&) {} return "lzh"; }   // decoder output belongs to C04
+          if (lzh) {   // what the decoder makes of the stored bytes belongs to C04; here: the member's extent must be accepted first
+            { auto s = v->OpenStream(i); }
+            try { v->ExtractFile(i, p); } catch (const std::exception&) {}
+            return "lzh";
+          }
           v->ExtractFile(i, p); return showBytes(readFile(p));
         }
         default: throw BadOp();
